@@ -843,13 +843,14 @@ def main(tier):
         res.inconclusive.append("targets without a single execution: %s" % ", ".join(missing))
     rule = ("(b) %d libFuzzer executions per target (%s) from %d structured seeds each (generated sessions / messages / answers / reports / "
             "files, 30%% pre-mutated; DNS answers sized 511/512/513/65535 with the last record cut at every byte); (c) deterministic "
-            "extremes (1 MB lines, 10^5 tokens, 10^4-deep comments, declared lengths around 2^31 / 2^32 / 2^64, every truncation of a "
-            "valid session) once through the same targets, %s length-arithmetic probes with fabricated len/a/n; (a') %d whole-binary "
+            "extremes (1 MB lines, 10^5 tokens, 10^4-deep comments, declared lengths around 2^31 / 2^32 / 2^64, every truncation point of "
+            "1 fixed + %d generated sessions per target, cdb files cut at every 8 bytes) once through the same targets, %s length-arithmetic probes with fabricated len/a/n; (a') %d whole-binary "
             "sessions on the ASan/UBSan build (mutated valid sessions; generated envelopes for qmail-queue; generated .qmail files for "
             "qmail-local -n; corrupted users/cdb for qmail-lspawn); (d) %d valgrind memcheck runs on the plain build. Non-trivial / "
             "distinct = libFuzzer corpus units (inputs kept for reaching new coverage) + distinct extreme inputs + distinct "
             "(program, input) smoke and memcheck cases + distinct probe triples." % (
-                runs, ", ".join(n for n in TARGETS if n not in missing), nseeds, r.counters.get("lenprobe_cases", 0), nsmoke, nvg if vg_jobs else 0))
+                runs, ", ".join(n for n in TARGETS if n not in missing), nseeds, ntrunc, r.counters.get("lenprobe_cases", 0), nsmoke,
+                nvg if vg_jobs else 0))
     hard = bool(missing) or "lenprobe" not in bins
     if hard:
         print("C20: incomplete run: %s" % "; ".join(res.inconclusive[:3])[:1500])
